@@ -21,7 +21,7 @@ pub struct C14;
 const STRS: &[&str] = &[
     "", "plain", "with \"quotes\"", "back\\slash", "new\nline", "tab\there", "nul\0byte", "é ü ñ",
     "日本語", "😀 astral", "\u{2028}line sep", "\u{7f}del", "\u{1b}[0m", "'single'", "{braces}",
-    "[brackets]", "a, b", "#null", "[graph node 3]", "  leading",
+    "[brackets]", "a, b", "#null", "[graph node 3]", "  leading", "C:\\temp\\new", "a\\nb", "\\", "ends with \\",
 ];
 
 fn gen_val<'t>(rng: &mut Rng, graph: &mut Graph<'t>, refs: &[GraphNodeRef], ti: &TreeInfo<'t>, depth: usize) -> Value {
@@ -47,7 +47,7 @@ fn gen_val<'t>(rng: &mut Rng, graph: &mut Graph<'t>, refs: &[GraphNodeRef], ti: 
     }
 }
 
-const ATTRS: &[&str] = &["a", "b", "name", "kind", "zeta", "Alpha", "_x", "x-y", "a1", "a10", "a2"];
+const ATTRS: &[&str] = &["a", "b", "name", "kind", "zeta", "Alpha", "_x", "x-y", "a1", "a10", "a2", "Kind", "KIND", "name_range", "def", "def_kind", "na"];
 
 fn build_graph<'t>(rng: &mut Rng, ti: &TreeInfo<'t>) -> Graph<'t> {
     let mut graph = Graph::new();
